@@ -57,6 +57,9 @@ inductive Res where
   | null
   deriving DecidableEq, Repr, Inhabited
 
+def Res.ofName? (s : String) : Option Res :=
+  if s == "null" then some .null else (Cs.ofName? s).map .cs
+
 /-- Go: the character set `Type.SQL` transcodes into. -/
 def Res.effective (r : Res) (col : Cs) : Cs :=
   match r with
@@ -77,6 +80,9 @@ point of the same number). Tied to the compiled encoder by `Gms.C28.facts_cs`. -
 def cp1252Hi : List Nat :=
   [0x20AC, 0x81, 0x201A, 0x192, 0x201E, 0x2026, 0x2020, 0x2021, 0x2C6, 0x2030, 0x160, 0x2039, 0x152, 0x8D, 0x17D, 0x8F,
    0x90, 0x2018, 0x2019, 0x201C, 0x201D, 0x2022, 0x2013, 0x2014, 0x2DC, 0x2122, 0x161, 0x203A, 0x153, 0x9D, 0x17E, 0x178]
+
+/-- code point of a byte under `encodings.Latin1` -/
+def latin1Cp (b : Nat) : Nat := if 0x80 ≤ b ∧ b < 0xA0 then cp1252Hi.getD (b - 0x80) 0 else b
 
 def latin1Byte? (cp : Nat) : Option Nat :=
   if cp < 0x80 ∨ (0xA0 ≤ cp ∧ cp ≤ 0xFF) then some cp
@@ -118,8 +124,7 @@ def decodeCs (c : Cs) : Nat → Bytes → Option (List Nat)
       if validUtf8 bs && (decodeRunes bs).all (· < 0x10000) then some (decodeRunes bs) else none
     | .ascii, b :: rest => if b < 0x80 then (decodeCs .ascii fuel rest).map (b :: ·) else none
     | .latin1, b :: rest =>
-      let cp := if 0x80 ≤ b ∧ b < 0xA0 then cp1252Hi.getD (b - 0x80) 0 else b
-      (decodeCs .latin1 fuel rest).map (cp :: ·)
+      (decodeCs .latin1 fuel rest).map (latin1Cp b :: ·)
     | .utf16, a :: b :: rest =>
       let u := a * 256 + b
       if u < 0xD800 ∨ 0xE000 ≤ u then (decodeCs .utf16 fuel rest).map (u :: ·)
